@@ -6,7 +6,7 @@
    (direct successors of START included: [start] tests the initial task set). *)
 From Eino Require Import Base.Util Model.Graph Model.RunLoop Model.Interrupt Model.IntrObs
      Proofs.RunLoop Proofs.RunLoopEager Proofs.Interrupt Proofs.InterruptWitness
-     Proofs.RunLoopDrive Proofs.InterruptDrive.
+     Proofs.RunLoopDrive Proofs.InterruptDrive Proofs.RunLoopAfterRerun Proofs.InterruptNestedRun.
 Open Scope N_scope.
 
 Section Generic.
@@ -191,6 +191,44 @@ Section Generic.
     forall co, In co cos ->
       (co_written co = true <-> (with_id = true /\ exists i c, co_out co = OInterrupted i c)).
   Proof. intros B ser deser fresh resumed tick; exact (drive_written_iff ser deser fresh resumed tick). Qed.
+
+  (* ---- the second clause, the remaining case: an interrupt-after node completes in a step in which another
+     task asked for a rerun or was interrupted inside a nested graph. The segment ends with that iteration
+     (the after_stops_successors theorems), reporting the node; its output is kept in the channels of the checkpoint and NO
+     task is created from it: the pending inputs are exactly the rerun / nested nodes, with the zero input —
+     its successors can only become ready in a resumed segment ---- *)
+  Theorem after_outputs_kept_rerun : forall cs (gs1 : GS) (rs : list (N * @texec V SCP SINFO)) i (c : @checkpoint V CS GS SCP),
+    decide zero fold getr before after cs gs1 rs = Interrupted i c ->
+    negb (is_nil (subcps rs) && is_nil (reruns rs)) = true ->
+    fold cs (outs rs) = Ok (cp_cs c) /\
+    cp_inputs c = zero_tasks zero rs /\
+    ii_after i = afters after rs /\ ii_rerun i = reruns rs /\ map fst (ii_subs i) = map fst (subcps rs).
+  Proof. exact (decide_rerun_keeps_outputs zero fold getr before after). Qed.
+
+  (* eager mode, the collected task itself asked for a rerun / was interrupted inside: everything still running is
+     waited for, all outputs are kept in the channels, nothing is created from them *)
+  Theorem after_outputs_kept_rerun_eager : forall cs (gs1 : GS) (c : N * @texec V SCP SINFO) rest sched' i (cp : @checkpoint V CS GS SCP),
+    edecide zero fold getr before after false cs gs1 c rest sched' = EStop (Interrupted i cp) ->
+    negb (is_nil (subcps [c]) && is_nil (reruns [c])) = true ->
+    fold cs (outs (c :: rest)) = Ok (cp_cs cp) /\
+    cp_inputs cp = zero_tasks zero (c :: rest) /\
+    ii_after i = afters after (c :: rest) /\ ii_rerun i = reruns (c :: rest).
+  Proof. exact (edecide_rerun_keeps_outputs zero fold getr before after). Qed.
+
+  (* eager mode, the collected task completed and an interrupt point was hit; while the loop waited for the
+     others one of them asked for a rerun / was interrupted inside: the tasks already created from the collected
+     task's output stay pending — held, not started — and the outputs of the others are kept in the channels *)
+  Theorem after_outputs_kept_late_rerun_eager : forall cs (gs1 : GS) (c : N * @texec V SCP SINFO) rest sched' i (cp : @checkpoint V CS GS SCP),
+    edecide zero fold getr before after false cs gs1 c rest sched' = EStop (Interrupted i cp) ->
+    negb (is_nil (subcps [c]) && is_nil (reruns [c])) = false ->
+    negb (is_nil (subcps rest) && is_nil (reruns rest)) = true ->
+    exists cs2 ready,
+      calc fold getr cs (outs [c]) = Ok (cs2, ready) /\
+      fold cs2 (outs rest) = Ok (cp_cs cp) /\
+      cp_inputs cp = ready ++ zero_tasks zero rest /\
+      ii_before i = hits before ready /\
+      ii_after i = afters after [c] ++ afters after rest /\ ii_rerun i = reruns rest.
+  Proof. exact (edecide_late_rerun_keeps_outputs zero fold getr before after). Qed.
 End Generic.
 
 (* ---------------------------------------------------------------------------------------------
@@ -283,6 +321,42 @@ Theorem paired_descends_to_nested : forall F g (i : inf) (c : cpt),
       paired F sub (un_info si) (un_cp sc).
 Proof. exact paired_descends. Qed.
 
+(* ---- THE FIRST CLAUSE AT RUN LEVEL FOR EVERY NESTING LEVEL ----
+   [call_logs e'] is the flat execution log of the run cut at the call markers: one entry [LExec k v ab] per
+   execution of a lambda body in that call, at whatever depth of nested graphs — what the correspondence check
+   compares with the executions the implementation performed in each call. An execution of a node that is
+   configured interrupt-before in the graph of the forest declaring it ([before_in]: one graph declares the
+   node — node ids are unique across a forest the harness builds — and lists it) occurs only in a call j > 0
+   whose predecessor returned an interrupt, wrote its checkpoint, and whose information tree reports the node:
+   in its before / rerun / nested list or in those of a nested information at any depth ([tree_reports]).
+   Whatever the modes of the graphs, the schedules of the eager ones, the lists handed to Compile. *)
+Theorem nested_before_needs_reported_interrupt_run :
+  forall (F : list gspec) g0 with_id mods x scheds cos e',
+    nth_error F 0 = Some g0 ->
+    run_drive F with_id mods x (env0 scheds) = (cos, e') ->
+    List.length (call_logs e') = List.length cos /\
+    forall j entries k v ab,
+      nth_error (call_logs e') j = Some entries -> In (LExec k v ab) entries -> before_in F k ->
+      exists j' co' i c, j = S j' /\ nth_error cos j' = Some co' /\
+                         co_out co' = OInterrupted i c /\ co_written co' = true /\ tree_reports i k.
+Proof. exact run_drive_nested_before_needs_report. Qed.
+
+(* non-vacuity: node 5 of the nested graph of [wd_top] is interrupt-before; the first call is interrupted inside
+   the nested graph and reports node 5 in the nested information under node 2; the second call executes it *)
+Example nested_before_needs_reported_interrupt_run_witness : exists cos e' entries v,
+  run_drive [wd_top; wd_sub] true [] wd_x (env0 []) = (cos, e') /\
+  nth_error (call_logs e') 1 = Some entries /\ In (LExec 5 v false) entries /\ before_in [wd_top; wd_sub] 5 /\
+  (exists co i c si, nth_error cos 0 = Some co /\ co_out co = OInterrupted i c /\ co_written co = true /\
+                     ii_subs i = [(2, NInfo si)] /\ ii_before si = [5]).
+Proof. exact wd_nested_second_call. Qed.
+
+(* non-vacuity of [after_outputs_kept_rerun]: node 2 (interrupt-after) completed, node 3 asked for a rerun *)
+Example after_outputs_kept_rerun_witness : exists i c,
+  decide (V := N) (CS := list (N * N)) (GS := unit) (SCP := N) (SINFO := N) 0
+         (fun cs o => Ok (cs ++ o)) (fun cs => Ok (cs, [])) [] [2] [] tt [(2, TDone 5); (3, TRerun)] = Interrupted i c /\
+  cp_cs c = [(2, 5)] /\ cp_inputs c = [(3, 0)] /\ ii_after i = [2] /\ ii_rerun i = [3].
+Proof. exact decide_rerun_keeps_outputs_witness. Qed.
+
 Example nested_info_faithful_witness : exists co rest e i c si sc,
   run_drive [wd_top; wd_sub] true [] wd_x (env0 []) = (co :: rest, e) /\
   co_out co = OInterrupted i c /\ ii_subs i = [(2, NInfo si)] /\ cp_subs c = [(2, NCP sc)] /\
@@ -366,3 +440,9 @@ Print Assumptions paired_descends_to_nested.
 Print Assumptions after_successors_pending.
 Print Assumptions after_successors_pending_eager.
 Print Assumptions after_successors_pending_witness.
+Print Assumptions after_outputs_kept_rerun.
+Print Assumptions after_outputs_kept_rerun_eager.
+Print Assumptions after_outputs_kept_late_rerun_eager.
+Print Assumptions nested_before_needs_reported_interrupt_run.
+Print Assumptions nested_before_needs_reported_interrupt_run_witness.
+Print Assumptions after_outputs_kept_rerun_witness.
